@@ -117,16 +117,16 @@ func TestCheck(t *testing.T) {
 		}
 	})
 	r.Finish(map[string]any{
-		"states":                        len(cfgs),
-		"transitions":                   int(calls.Get()),
-		"traces_validated_against_impl": int(calls.Get()),
-		"evaluations":                   int(calls.Get()),
-		"distinct_nontrivial":           int(par.Get()),
-		"rule":                          "every m-of-n configuration up to n (see n_max) incl. repeated identical signature bytes, several free-running calls each on elliptic.P256() under the race detector, many calls concurrently; non-trivial = more than one signature (the parallel path)",
-		"n_max":                         nmax,
-		"n_max_all_failing_kinds":       nall,
-		"calls_per_configuration":       iters,
-		"configurations_same_bytes":     int(same.Get()),
-		"accepting_calls":               int(trues.Get()),
+		"states":                         len(cfgs),
+		"transitions":                    int(calls.Get()),
+		"traces_validated_against_impl":  int(calls.Get()),
+		"evaluations":                    int(calls.Get()),
+		"distinct_nontrivial":            int(par.Get()),
+		"rule":                           "every m-of-n configuration up to n (see n_max) incl. repeated identical signature bytes, several free-running calls each on elliptic.P256() under the race detector, many calls concurrently; non-trivial = more than one signature (the parallel path)",
+		"race_n_max":                     nmax,
+		"race_n_max_all_failing_kinds":   nall,
+		"race_calls_per_configuration":   iters,
+		"race_configurations_same_bytes": int(same.Get()),
+		"race_accepting_calls":           int(trues.Get()),
 	}, []string{"the race detector only sees the interleavings that happen to occur; the schedule quantifier is decided by the gated part"})
 }
